@@ -3,9 +3,10 @@ From Coq Require Export List NArith ZArith Bool Lia.
 Export ListNotations.
 Open Scope N_scope.
 
-Definition byte := N.
-Definition bytes := list byte.
-Definition rune := N.
+(* plain aliases: notations, so that terms mentioning them are syntactically the underlying types *)
+Notation byte := N (only parsing).
+Notation bytes := (list N) (only parsing).
+Notation rune := N (only parsing).
 
 Fixpoint beqb (a b : bytes) : bool :=
   match a, b with
